@@ -295,6 +295,10 @@ def wp1(F, R):
     fn = F.fn("filesystem::directory::Directory::change_dir")
     seq = [strip_generics(t.get("resolved") or t["callee"]).split("::")[-1] for b, t in fn.calls() if strip_generics(t.get("resolved") or t.get("callee") or "").startswith("volume_mgr::VolumeManager::")]
     R.require(seq == ["open_dir", "close_dir"], fn, "change_dir", "change_dir must open the new directory and then close the old one, got %s" % seq, fn.loc(0))
+    cl = [b for b, t in fn.calls() if strip_generics(t.get("resolved") or t.get("callee") or "").endswith("VolumeManager::close_dir")]
+    st = [(b, i) for b, i, s in fn.stmts() if s["k"] == "Assign" and s["p"]["proj"] and [e[2] for e in s["p"]["proj"] if e[0] == "field"][-1:] == ["raw_directory"]]
+    okc = bool(cl) and all(guarded(fn, b, g_try_ok("VolumeManager::open_dir"))[0] for b in cl) and bool(st) and all(guarded(fn, b, g_try_ok("VolumeManager::open_dir"))[0] for b, i in st)
+    R.require(okc, fn, "change_dir:only-on-success", "a refused change_dir (name is a file, missing, invalid) must leave the Directory as it was: the old handle is closed / replaced only after open_dir succeeded", fn.loc(cl[0]) if cl else fn.loc(0))
 
 
 @rule("HV3", ["C08", "C01"], floor=3,
@@ -982,3 +986,205 @@ def ls7(F, R):
                 if any(x in w.reach([tgt]) for x in nxt):
                     again = True
             R.require(bool(err_edges) and not again, w, walker + ":stops-on-err", "%s goes on to the next directory block after %s reported an error / the end marker" % (walker, helper), w.loc(b))
+
+
+def _eval_mode(term, mode_name, mode_idx):
+    """Evaluate a boolean term over `mode` for one concrete Mode; None when the term does not only depend on mode."""
+    t = strip_refs(term)
+    if t[0] == "un" and t[1] == "Not":
+        v = _eval_mode(t[2], mode_name, mode_idx)
+        return None if v is None else (not v)
+    if t[0] == "bin" and t[1] in ("BitOr", "BitAnd"):
+        a, b = _eval_mode(t[2], mode_name, mode_idx), _eval_mode(t[3], mode_name, mode_idx)
+        if t[1] == "BitOr":
+            if a is True or b is True:
+                return True
+            return False if (a is False and b is False) else None
+        if a is False or b is False:
+            return False
+        return True if (a is True and b is True) else None
+    def side(x):
+        x = strip_refs(x)
+        if x[:2] == ("arg", 4) or (x[0] == "arg" and str(x[2]) == "mode"):
+            return "mode"
+        if x[0] == "agg" and x[2] and "files::Mode::" in x[2]:
+            return x[2].split("::")[-1]
+        return None
+    if t[0] == "call" and t[1] and t[1].split("::")[-1] in ("eq", "ne") and len(t[2]) == 2:
+        a, b = side(t[2][0]), side(t[2][1])
+        if "mode" in (a, b) and (a if b == "mode" else b) not in (None, "mode"):
+            r = (a if b == "mode" else b) == mode_name
+            return r if t[1].endswith("eq") else (not r)
+    if t[0] == "cmp" and t[1] == "Eq":
+        a, b = side(t[2]), side(t[3])
+        if "mode" in (a, b) and (a if b == "mode" else b) not in (None, "mode"):
+            return (a if b == "mode" else b) == mode_name
+    return None
+
+
+@rule("MD10", ["C07", "C02"], floor=6,
+      doc="a missing name is created by exactly the creating modes: in open_file_in_dir the NotFound answer of the lookup leads on to write_new_directory_entry for ReadWriteCreate, ReadWriteCreateOrTruncate and ReadWriteCreateOrAppend and to Err(NotFound) for ReadOnly, ReadWriteAppend and ReadWriteTruncate - decided per mode by evaluating the guards on `mode` that lie behind the NotFound edge (any mix of ==, ||, matches!)")
+def md10(F, R):
+    fn = F.fn(VM + "::open_file_in_dir")
+    modes = F.variants("filesystem::files::Mode")
+    nf = [(gb, gi) for (gb, gi, g) in all_guards(fn) if g.kind == "variant" and g.variant == "NotFound" and has_sub(g.term, lambda q: q[0] == "call" and q[1] and path_matches(q[1], "FatVolume::find_directory_entry"))]
+    wn = [b for b, t in fn.calls() if call_matches(t, ("FatVolume::write_new_directory_entry",))]
+    R.require(len(nf) == 1 and len(wn) == 1, fn, "anchors", "expected one NotFound arm on the lookup and one write_new_directory_entry call in open_file_in_dir", fn.loc(0))
+    if len(nf) != 1 or len(wn) != 1:
+        return
+    start = fn.succ(nf[0][0])[nf[0][1]][0]
+    want = {"ReadWriteCreate", "ReadWriteCreateOrTruncate", "ReadWriteCreateOrAppend"}
+    for mi, m in enumerate(modes):
+        cut = []
+        for (gb, gi, g) in all_guards(fn):
+            if g.kind == "bool":
+                v = _eval_mode(g.term, m, mi)
+                if v is not None and v != g.truth:
+                    cut.append((gb, gi))
+            elif g.kind == "value" and strip_refs(g.term)[:2] == ("arg", 4):
+                if g.value != mi:
+                    cut.append((gb, gi))
+            elif g.kind == "notvalues" and strip_refs(g.term)[:2] == ("arg", 4):
+                if mi in g.others:
+                    cut.append((gb, gi))
+            elif g.kind == "variant" and strip_refs(g.term)[:2] == ("arg", 4):
+                if g.variant != m:
+                    cut.append((gb, gi))
+            elif g.kind == "variants" and strip_refs(g.term)[:2] == ("arg", 4):
+                if m not in tuple(g.variant):
+                    cut.append((gb, gi))
+        # boolean temporaries set in the arms of a `matches!(mode, ..)`: decided once only one constant definition stays reachable
+        for _round in range(4):
+            rs = fn.reach([start], cut_edges=cut)
+            grew = False
+            for (gb, gi, g) in all_guards(fn):
+                t_ = strip_refs(g.term)
+                if g.kind == "bool" and t_[0] == "var" and gb in rs and (gb, gi) not in cut:
+                    vals = set()
+                    for d in fn.defs().get(t_[1], []):
+                        if d[0] == "assign" and d[1] in rs:
+                            dv = fn.term_of_rvalue(d[3], d[1])
+                            vals.add(bool(dv[1]) if dv[0] == "c" else None)
+                    if len(vals) == 1 and None not in vals and (list(vals)[0] != g.truth):
+                        cut.append((gb, gi))
+                        grew = True
+            if not grew:
+                break
+        creates = wn[0] in fn.reach([start], cut_edges=cut)
+        R.require(creates == (m in want), fn, "notfound:" + m, "open mode %s on a missing name %s; the documentation says it %s" % (m, "goes on to create the file" if creates else "fails with NotFound", "creates it" if m in want else "fails with NotFound"), fn.loc(nf[0][0]))
+
+
+@rule("MK1", ["C03", "C09", "C07", "C02"], floor=2,
+      doc="names stay unique through mkdir: in make_dir_in_dir the directory is created (FatVolume::make_dir) only on the NotFound answer of the name lookup - any found entry, file or directory, refuses the call - and any other lookup error is returned")
+def mk1(F, R):
+    fn = F.fn(VM + "::make_dir_in_dir")
+    mk = [b for b, t in fn.calls() if call_matches(t, ("FatVolume::make_dir",))]
+    lk = [b for b, t in fn.calls() if call_matches(t, ("FatVolume::find_directory_entry",))]
+    R.require(len(mk) == 1 and len(lk) == 1, fn, "anchors", "expected one lookup and one make_dir call in make_dir_in_dir", fn.loc(0))
+    if len(mk) != 1 or len(lk) != 1:
+        return
+    is_lk = lambda g: has_sub(g.term, lambda q: q[0] == "call" and q[1] and path_matches(q[1], "FatVolume::find_directory_entry"))
+    nf = guarded(fn, mk[0], lambda g: g.kind == "variant" and g.variant == "NotFound" and is_lk(g))[0]
+    R.require(nf, fn, "create-only-if-absent", "make_dir is reachable without the lookup having answered NotFound: a name that already exists (as a file or a directory) gets a second entry", fn.loc(mk[0]))
+    ok_edges = [(gb, gi) for (gb, gi, g) in all_guards(fn) if g.kind == "variant" and g.variant == "Ok" and is_lk(g) and g.term[0] == "call"]
+    leak = any(mk[0] in fn.reach([fn.succ(gb)[gi][0]]) for (gb, gi) in ok_edges)
+    R.require(bool(ok_edges) and not leak, fn, "found-refuses", "after the lookup found an entry make_dir is still reachable", fn.loc(lk[0]))
+
+
+def _fold(t):
+    """constant value of a term (ints / bools) or None"""
+    t = strip_refs(t)
+    if t[0] == "c" and isinstance(t[1], (int, bool)):
+        return int(t[1])
+    if t[0] == "cast":
+        v = _fold(t[2])
+        if v is None:
+            return None
+        w = {"u8": 8, "u16": 16, "u32": 32, "u64": 64, "usize": 64}.get(t[1])
+        return v & ((1 << w) - 1) if w else v
+    if t[0] == "call" and t[1] and t[1].endswith(("From::from", "Into::into")) and len(t[2]) == 1:
+        return _fold(t[2][0])
+    if t[0] == "un" and t[1] == "Not":
+        v = _fold(t[2])
+        return None if v is None else int(not v)
+    if t[0] in ("bin", "cmp"):
+        a, b = _fold(t[2]), _fold(t[3])
+        if a is None or b is None:
+            return None
+        op = t[1]
+        try:
+            return {"Add": a + b, "Sub": a - b, "Mul": a * b, "BitAnd": a & b, "BitOr": a | b, "BitXor": a ^ b, "Shl": a << b, "Shr": a >> b,
+                    "Eq": int(a == b), "Ne": int(a != b), "Lt": int(a < b), "Le": int(a <= b), "Gt": int(a > b), "Ge": int(a >= b), "Rem": a % b if b else None, "Div": a // b if b else None}.get(op)
+        except Exception:  # noqa
+            return None
+    return None
+
+
+def _subst_pred(t, pred, val):
+    if isinstance(t, tuple) and t and pred(t):
+        return ("c", val, None)
+    if not isinstance(t, tuple):
+        return t
+    return tuple(_subst_pred(x, pred, val) if isinstance(x, tuple) else x for x in t)
+
+
+def specialise_on(fn, pred, val):
+    """edges that cannot be taken when the subterm selected by `pred` has the constant value `val` (bool temporaries set
+    in match arms are resolved iteratively)"""
+    cut = []
+    for (gb, gi, g) in all_guards(fn):
+        if not has_sub(g.term, pred):
+            continue
+        tt = _subst_pred(g.term, pred, val)
+        v = _fold(tt)
+        if v is None:
+            continue
+        if g.kind == "bool" and bool(v) != g.truth:
+            cut.append((gb, gi))
+        elif g.kind == "value" and v != g.value:
+            cut.append((gb, gi))
+        elif g.kind == "notvalues" and v in g.others:
+            cut.append((gb, gi))
+    for _round in range(4):
+        rs = fn.reach([0], cut_edges=cut)
+        grew = False
+        for (gb, gi, g) in all_guards(fn):
+            t_ = strip_refs(g.term)
+            if g.kind == "bool" and t_[0] == "var" and gb in rs and (gb, gi) not in cut:
+                vals = set()
+                for d in fn.defs().get(t_[1], []):
+                    if d[0] == "assign" and d[1] in rs:
+                        dv = fn.term_of_rvalue(d[3], d[1])
+                        vals.add(bool(dv[1]) if dv[0] == "c" else None)
+                if len(vals) == 1 and None not in vals and (list(vals)[0] != g.truth):
+                    cut.append((gb, gi))
+                    grew = True
+        if not grew:
+            break
+    return cut
+
+
+@rule("MT7", ["C15"], floor=20,
+      doc="mounting does not refuse what the specification allows: for every BPB / MBR field with a small set of legal values (BPB_SecPerClus 1,2,..,128; BPB_NumFATs 1,2; BPB_Media F0,F8..FF; BPB_BytsPerSec 512; BPB_FSVer 0; partition status 00,80; the five FAT partition types) and every legal value, a success return of the function that tests the field stays reachable when the tests on that field are decided for that value - an added 'sanity check' that leaves a legal value out (e.g. a power-of-two list without 128) is a violation, checks that only refuse illegal values are not")
+def mt7(F, R):
+    call_is = lambda nm: (lambda q: q[0] == "call" and q[1] and q[1].endswith("Bpb::" + nm))
+    idx_is = lambda k: (lambda q: q[0] == "place" and any(isinstance(e, tuple) and e[0] == "idx" and e[1][:2] == ("c", k) for e in q[2]) and "partition" in tstr(q))
+    pow2 = [1, 2, 4, 8, 16, 32, 64, 128]
+    media = [0xF0, 0xF8, 0xF9, 0xFA, 0xFB, 0xFC, 0xFD, 0xFE, 0xFF]
+    table = []
+    for fname in ("fat::bpb::Bpb::create_from_bytes", "fat::volume::parse_volume"):
+        table += [(fname, "BPB_SecPerClus", call_is("blocks_per_cluster"), pow2), (fname, "BPB_NumFATs", call_is("num_fats"), [1, 2]), (fname, "BPB_Media", call_is("media"), media),
+                  (fname, "BPB_BytsPerSec", call_is("bytes_per_block"), [512]), (fname, "BPB_FSVer", call_is("fs_ver"), [0])]
+    table += [("volume_mgr::VolumeManager::open_raw_volume", "partition status", idx_is(0), [0x00, 0x80]),
+              ("volume_mgr::VolumeManager::open_raw_volume", "partition type", idx_is(4), [0x04, 0x06, 0x0B, 0x0C, 0x0E])]
+    for fname, label, pred, legal in table:
+        fn = F.fn(fname)
+        oks = [x[0] for x in ok_returns(fn)]
+        if not oks:
+            R.bad(fn, "ok-return", "no success return in %s" % fname, fn.loc(0), kind="anchor-missing")
+            continue
+        for v in legal:
+            cut = specialise_on(fn, pred, v)
+            rs = fn.reach([0], cut_edges=cut)
+            R.require(any(b in rs for b in oks), fn, "%s=%#x" % (label, v), "%s refuses every volume whose %s is %#x, a value the specification allows" % (fname.split("::")[-1], label, v), fn.loc(0),
+                      okdetail="%s = %#x can still succeed" % (label, v))
